@@ -24,6 +24,14 @@ impl BytesMut {
     pub fn zeroed(n: usize) -> (r: BytesMut) ensures r@.len() == n, forall|i: int| 0 <= i < n ==> r@[i] == 0u8, r.requested() == n { unimplemented!() }
     #[verifier::external_body]
     pub fn len(&self) -> (r: usize) ensures r == self@.len() { unimplemented!() }
+    //@trusted T2 BytesMut::capacity() is at least len(); reserve(additional) is an explicit allocation REQUEST for len()+additional bytes and is recorded in requested(); implicit growth through extend_from_slice/put_* (proportional to data actually supplied) is not a request
+    #[verifier::external_body]
+    pub fn capacity(&self) -> (r: usize) ensures r >= self@.len() { unimplemented!() }
+    #[verifier::external_body]
+    pub fn reserve(&mut self, additional: usize)
+        ensures final(self)@ == old(self)@,
+            final(self).requested() == (if old(self).requested() >= old(self)@.len() + additional { old(self).requested() } else { (old(self)@.len() + additional) as nat }),
+    { unimplemented!() }
     #[verifier::external_body]
     pub fn is_empty(&self) -> (r: bool) ensures r == (self@.len() == 0) { unimplemented!() }
     #[verifier::external_body]
